@@ -193,6 +193,29 @@ pub fn gen(rng: &mut Rng, tier: Tier, out: &mut Vec<String>) {
         }
         out.push(line);
     }
+    // crowded painter scenes: 65..110 small triangles, each in its own thin depth slab, submitted
+    // NEAREST FIRST in one call (anything that sorts or batches only part of the list shows here)
+    for _ in 0..(if tier == Tier::Quick { 6 } else { 120 }) {
+        let flags = format!("cull=n sort=n test=l cw=1 dw=1 sh=0 proj=none zinit={}", h32(0.0));
+        let (mut line, _, _) = header(rng, 'r', "fb", &flags, 1);
+        let n = 65 + rng.below(46) as usize;
+        let mut verts: Vec<Vec<f32>> = vec![];
+        for j in 0..n {
+            let (cx, cy) = (rng.f32_in(-0.8, 0.8), rng.f32_in(-0.8, 0.8));
+            for _ in 0..3 {
+                let w = 1.0 + 0.05 * j as f32 + rng.f32_in(0.0, 0.03);
+                let (nx, ny) = (cx + rng.f32_in(-0.5, 0.5), cy + rng.f32_in(-0.5, 0.5));
+                verts.push(vec![nx * w, ny * w, 0.9 * w - 1.0, w, rng.f32_in(-10.0, 10.0)]);
+            }
+        }
+        push_verts(&mut line, &verts);
+        line += &format!(" t {n}");
+        for j in 0..n {
+            line += &format!(" {} {} {}", 3 * j, 3 * j + 1, 3 * j + 2);
+        }
+        line += " painter=1";
+        out.push(line);
+    }
 }
 
 fn main() {
